@@ -70,7 +70,7 @@ def replay_case(item):
     tn = [t1, t2]
     rows = []
     for i, r in enumerate(c['tbl']):
-        rows.append(dict(rid=i, f1=cell_value(r[0], t1), f2=cell_value(r[1], t2), u='keep-%d' % i))
+        rows.append(dict(rid=i, f1=cell_value(r[0], t1), f2=cell_value(r[1], t2), f1x='keep-%d' % i))
     calls = []
     pol = c['policy']
 
@@ -88,9 +88,9 @@ def replay_case(item):
                'custom4': custom4, 'custom5': custom5}[pol]
     root = tempfile.mkdtemp(prefix='c14-', dir=tlc.WORK_ROOT)
     try:
-        anyf = [('rid', 'integer'), ('f1', 'any'), ('f2', 'any'), ('u', 'string')]
+        anyf = [('rid', 'integer'), ('f1', 'any'), ('f2', 'any'), ('f1x', 'string')]
         typed = [('rid', 'integer'), ('f1', TYPES[t1][0]['type'], {k: v for k, v in TYPES[t1][0].items() if k != 'type'}),
-                 ('f2', TYPES[t2][0]['type'], {k: v for k, v in TYPES[t2][0].items() if k != 'type'}), ('u', 'string')]
+                 ('f2', TYPES[t2][0]['type'], {k: v for k, v in TYPES[t2][0].items() if k != 'type'}), ('f1x', 'string')]
         raised = None
         out = None
         with contextlib.redirect_stdout(io.StringIO()), contextlib.redirect_stderr(io.StringIO()):
@@ -125,7 +125,7 @@ def replay_case(item):
         want = []
         for idx, cells in zip(c['idx'], c['rows']):
             src = rows[idx]
-            w = dict(rid=idx, u=src['u'])
+            w = dict(rid=idx, f1x=src['f1x'])
             for fi, (fname, cls) in enumerate(zip(('f1', 'f2'), cells)):
                 orig_cls = c['tbl'][idx][fi]
                 if cls == 'nul':
@@ -135,7 +135,7 @@ def replay_case(item):
                 else:
                     w[fname] = native(tn[fi], src[fname])
             want.append(w)
-        got = [dict(rid=r.get('rid'), f1=r.get('f1'), f2=r.get('f2'), u=r.get('u')) for r in out]
+        got = [dict(rid=r.get('rid'), f1=r.get('f1'), f2=r.get('f2'), f1x=r.get('f1x')) for r in out]
         if canon(got) != canon(want) or [type(x.get('f1')).__name__ for x in got] != [type(x.get('f1')).__name__ for x in want]:
             return dict(ok=False, why='emitted rows differ', got=got, want=want)
         if pol in ('custom4', 'custom5'):
